@@ -1542,7 +1542,7 @@ class Function(Criterion):
         # inside a function call must not fall back to its own class's or to the default conventions)
         forwarded = {
             key: kwargs[key]
-            for key in ("secondary_quote_char", "alias_quote_char", "as_keyword", "groupby_alias")
+            for key in ("secondary_quote_char", "alias_quote_char", "query_alias_quote_char", "as_keyword", "groupby_alias")
             if key in kwargs
         }
 
